@@ -107,7 +107,7 @@ META = {
     "level_text": "Bounded model checking (CBMC) of lcdb's own version_set.c builder (builder_apply, builder_save_to, "
                   "reached by including the real file), version_edit.c and the snapshot writer: for every symbolic "
                   "base layout, edit and key bytes inside the stated sizes the produced version is compared with an "
-                  "independently written set/ordering reference; counterexamples are replayed natively.",
+                  "independently written set/ordering reference; counterexamples are replayed natively. Also: compaction input selection on the real ldb_version_get_overlapping_inputs / add_boundary_inputs / ldb_versions_setup_other_inputs / pick_compaction / compact_range (level-0 transitive closure, boundary files, level+1 hull, trivial move), flush placement (pick_level_for_memtable_output), compaction output bounds and cuts in ldb_do_compaction_work, and MANIFEST replay including a file on the deepest level.",
     "level_note": "Only sub-items a (builder merge) and e (MANIFEST replay) of the design are built; compaction input "
                   "selection (b), output bounds (c) and flush placement (d) are not. Trusted: CBMC's C semantics, the "
                   "kit models, the harness' reference internal-key order. Base versions are arbitrary layouts "
